@@ -714,6 +714,12 @@ func c11(c *ctx) error {
 		}
 	}
 	lap("e2e")
+	for i := 0; i < 2; i++ {
+		if err := c11Overlap(c); err != nil {
+			return err
+		}
+	}
+	lap("e2e-overlap")
 	for i := 0; i < nsg; i++ {
 		if err := c11Single(c); err != nil {
 			return err
